@@ -1,4 +1,5 @@
 """C11 — LSP diagnostics depend only on current contents and equal `check` (DESIGN.md §3 C11)."""
+import re
 from vlib.mir import norm, loc_str, op_place, switch_info, explore
 from rules.c12 import cast_label, LSP
 
@@ -312,6 +313,34 @@ def rule_same(ctx, rep):
                       "%d calls to Project::semantic, %d direct analysis calls" % (len(cs), len(other)))
 
 
+def rule_keyorder(ctx, rep, rid="R-C11-keyorder"):
+    """The analysis is order-sensitive (which of two duplicates is "the second", which error comes first), so the order in which the
+    project's sources reach it must be a function of the sources themselves.  `FileBackedProject.sources` is a map ordered by
+    FileId; a sequence (Vec, VecDeque, LinkedList, IndexMap: insertion order = edit history) or a hash container (order = hasher
+    seed) in its place makes the published diagnostics depend on which document was opened first."""
+    r = rep.rule(rid, "the project's sources are kept in a container whose iteration order depends on the keys only (BTreeMap/BTreeSet keyed by "
+                      "FileId): not on insertion history (Vec, VecDeque, LinkedList, IndexMap) and not on a hasher (HashMap, HashSet)", floor=1)
+    a = ctx.facts.adts.get("ironplcc::project::FileBackedProject")
+    if not a:
+        rep.error(rid, "struct FileBackedProject not found")
+        return
+    where = "%s:%d" % (a["file"], a["line"])
+    n = 0
+    for f in a["variants"][0]["fields"]:
+        if "ironplcc::source::Source" not in f["ty"]:
+            continue
+        n += 1
+        t = f["ty"]
+        inst = "FileBackedProject.%s" % f["name"]
+        if re.match(r"^(alloc|std)::collections::(btree::map::|btree_map::)?BTreeMap<ironplc_dsl::core::FileId, ", t):
+            r.ok(inst, where, "BTreeMap<FileId, Source>")
+        else:
+            r.finding(inst + "|order-depends-on-history", where, "sources are kept in `%s`: the order in which files reach the analysis depends on the order in which documents "
+                      "were opened/changed (or on the hasher), so a document's diagnostics depend on the edit history" % t[:80])
+    if n == 0:
+        r.finding("FileBackedProject|no-source-container", where, "no field holding Source values found")
+
+
 def rule_stateless(ctx, rep, rid="R-C11-stateless"):
     r = rep.rule(rid, "the LSP adapter keeps no state of its own between notifications (LspProject wraps the project and nothing else; the "
                                     "server holds only the channel and the project), and LspProject::semantic runs Project::semantic on every path that "
@@ -374,6 +403,9 @@ def run(ctx, rep):
     rule_cache(ctx, rep)
     rule_same(ctx, rep)
     rule_stateless(ctx, rep)
+    rule_keyorder(ctx, rep)
+    from rules import c06_globals
+    c06_globals.run(ctx, rep, rid="R-C11-globals")
     from rules.c05 import rule_units
     rule_units(ctx, rep, rid="R-C11-units")
     # LspProject::semantic keeps a diagnostic only if one of its labels names the published file: spans must not lose their file id
